@@ -231,36 +231,39 @@ struct Runner {
       const std::string& op = w[2];
       size_t x = std::stoul(w[3]);
       Caps before = caps(u);
+      // copy-assign from an lvalue: a `set_s(std::string&&)` would *replace* the field's buffer by the
+      // argument's (std::string move assignment), which is the caller giving capacity away, not the container
+      const std::string pl = payload(x);
       if (op == "set_p") {
         m.set_p(x);
         r.set_p(x);
       } else if (op == "set_s") {
-        m.set_s(payload(x));
-        r.set_s(payload(x));
+        m.set_s(pl);
+        r.set_s(pl);
       } else if (op == "set_ds") {
-        m.set_ds(payload(x));
-        r.set_ds(payload(x));
+        m.set_ds(pl);
+        r.set_ds(pl);
       } else if (op == "m_set_s") {
-        m.mutable_m()->set_s(payload(x));
-        r.mutable_m()->set_s(payload(x));
+        m.mutable_m()->set_s(pl);
+        r.mutable_m()->set_s(pl);
       } else if (op == "m_set_p") {
         m.mutable_m()->set_p(x);
         r.mutable_m()->set_p(x);
       } else if (op == "mm_set_s") {
-        m.mutable_m()->mutable_m()->set_s(payload(x));
-        r.mutable_m()->mutable_m()->set_s(payload(x));
+        m.mutable_m()->mutable_m()->set_s(pl);
+        r.mutable_m()->mutable_m()->set_s(pl);
       } else if (op == "add_rp") {
         m.add_rp(x);
         r.add_rp(x);
       } else if (op == "add_rs") {
-        m.add_rs(payload(x));
-        r.add_rs(payload(x));
+        m.add_rs(pl);
+        r.add_rs(pl);
       } else if (op == "add_rm") {
-        m.add_rm()->set_s(payload(x));
-        r.add_rm()->set_s(payload(x));
+        m.add_rm()->set_s(pl);
+        r.add_rm()->set_s(pl);
       } else if (op == "m_add_rs") {
-        m.mutable_m()->add_rs(payload(x));
-        r.mutable_m()->add_rs(payload(x));
+        m.mutable_m()->add_rs(pl);
+        r.mutable_m()->add_rs(pl);
       } else {
         return "bad-op";
       }
